@@ -41,7 +41,7 @@ CLAIMED = {
  "C08": dict(
    level="model_checking", design="§3 C08",
    technique="explicit-state search over write/flush/restart programs on the real engine; oracle on the log read back and on the reported last sequence after every step",
-   text="All programs up to depth 5-6 (6-7 thorough) over {put, delete, 3-entry and 1-entry commits, flush, bg, reopen} x configurations: the reported last sequence never decreases (also across reopen), the log directory read back holds exactly the program's writes in issue order, each stamped strictly higher than every earlier write, batch entries stamped alike; one configuration makes every reopening start a new log file. Concurrent part: 4 scenarios in which two client threads write while a flush rotates the log are explored over all interleavings up to 2 (3) deviations; the stamp of every acknowledged write must exceed the stamp of every write acknowledged before it started. Three retention runs (real Primary, acknowledgements that trigger its log retention, restart) check that the sequence position survives whatever retention removes. After crash recovery the same stamp rule is applied by C02's continuation step.",
+   text="All programs up to depth 5-6 (6-7 thorough) over {put, delete, 3-entry and 1-entry commits, raw batches with two and with no entries, flush, bg, reopen} x configurations: the reported last sequence never decreases (also across reopen), the log directory read back holds exactly the program's writes in issue order, each stamped strictly higher than every earlier write, batch entries stamped alike; one configuration makes every reopening start a new log file. Concurrent part: 4 scenarios in which two client threads write while a flush rotates the log are explored over all interleavings up to 2 (3) deviations; the stamp of every acknowledged write must exceed the stamp of every write acknowledged before it started. Three retention runs (real Primary, acknowledgements that trigger its log retention, restart) check that the sequence position survives whatever retention removes. After crash recovery the same stamp rule is applied by C02's continuation step.",
    note="Stamps are read from the log (what replication ships)."),
  "C03": dict(
    level="model_checking", design="§3 C03",
